@@ -139,8 +139,22 @@ Proof. exact emit_assign_spec_top. Qed.
 Print Assumptions C06_emit_assign_spec_top.
 Example C06_emit_assign_spec_top_ex :
   let t := TCat [TSwitch 4 [TSig 1 2; TSig 2 4]; TCast (TSwitch 3 [TSlice (TSig 3 8) 1 4; TSig 4 1])] in
-  wf_tgt_top t = true /\ wf_tgt t = false
+  wf_tgt_top t = true
   /\ emit_assign t 0 (tlen t) = [AR 1 2 0 2; AR 2 4 0 4; AR 3 8 1 3; AR 4 1 0 1].
+Proof. vm_compute. repeat split. Qed.
+
+(* For ALL well-formed targets and windows: every record emit_assign makes names a signal of the target with that
+   signal's width and lies inside it — in particular through a slice of a choice between values of different widths
+   (Mux(idx, a4, b8)[2:6]: a4 is recorded on [2:4], not [2:6]; the pre-961f42e code overhung and died with IndexError). *)
+Theorem C06_emit_assign_bounds : forall t, wf_tgt t = true -> forall start len r,
+  start + len <= tlen t -> In r (emit_assign t start len) ->
+  In (a_sig r, a_w r) (tgt_sigs t) /\ a_start r + a_len r <= a_w r.
+Proof. exact emit_assign_bounds. Qed.
+Print Assumptions C06_emit_assign_bounds.
+Example C06_emit_assign_bounds_ex :
+  let t := TSlice (TSwitch 8 [TSig 2 8; TSig 1 4]) 2 6 in
+  wf_tgt t = true /\ emit_assign t 0 4 = [AR 2 8 2 4; AR 1 4 2 2]
+  /\ emit_assign (TSlice (TSwitch 8 [TSig 2 8; TSig 1 4]) 5 7) 0 2 = [AR 2 8 5 2].
 Proof. vm_compute. repeat split. Qed.
 
 (* For ALL targets: the computable form used by conflictb (and run by the harness) is the declarative spec *)
@@ -166,6 +180,38 @@ Example C06_connect_ex :
   connect [(0, 2); (0, 3)] [(0, 1); (0, 0)] = inl [(0, 3); (0, 2); (0, 1); (0, 0)]
   /\ connect [(0, 1); (0, 2)] [(0, 1); (0, 0)] = inr (ErrConnect 0 1).
 Proof. vm_compute. split; reflexivity. Qed.
+
+(* UNBOUNDED.  For EVERY design tree (any number of modules at any depth, statements, domains, signals, widths, target
+   forms incl. part-selects / Cat / arrays of different widths, any number of Instance / read-port / buffer outputs and
+   ports) that is well-formed —
+     targets are ones the API can build (wf_tgt_top: slices inside their operand, stride >= 1, array / choice elements no
+       wider than the array value);
+     every signal has ONE width W s, in all targets and ports;
+     every driver the emitter creates covers at least one bit (this excludes exactly C06_zero_width_refuted);
+     every signal is a port at most once —
+   the whole-design check as modelled (walk with preorder module indices, per-(module, domain) drivers, outputs connected
+   at once, emit_drivers with its `len(sig_drivers) == 1` shortcut and per-bit driven_bits, connect(), emit_top_ports)
+   raises DriverConflict IF AND ONLY IF some signal bit has two different sources: two different (module, domain) pairs
+   that may address it for some selector value, logic and an instance / memory / buffer output, two outputs, or any of
+   these and an Input port.  Both directions: no false negative, no false positive for bit-disjoint drivers.
+   That emit_assign's records stay inside their signal (the IndexError of C06-choice-target-overhang-indexerror, repaired
+   by repo 961f42e) is no longer assumed: it is NirP.emit_assign_bounds, proved for the repaired SwitchValue branch. *)
+Theorem C06_driver_check_iff : forall W d, wf_design W d -> (driver_table d <> None <-> conflict d).
+Proof. exact driver_check_iff. Qed.
+Print Assumptions C06_driver_check_iff.
+Example C06_driver_check_iff_ex :
+  let W := fun s => match s with 0 => 4 | 1 => 2 | _ => 1 end in
+  let d1 := Design (FMod [(0, TSlice (TSig 0 4) 0 2)]
+                         [FMod [(1, TPart (TSig 0 4) 1 2 2); (0, TSwitch 2 [TSig 1 2; TSlice (TSig 2 1) 0 1])]
+                               [FOut [TSlice (TSig 0 4) 3 4]; FMod [(2, TCat [TSlice (TSig 0 4) 2 3; TSig 3 1])] []]])
+                   [(4, 1, PIn); (3, 1, PNone)] in
+  let d2 := Design (FMod [(0, TSlice (TSig 0 4) 0 2)] [FMod [(1, TSlice (TSig 0 4) 2 3)] [FOut [TSlice (TSig 0 4) 3 4]]])
+                   [(1, 2, PIn)] in
+  wf_designb W d1 = true /\ driver_table d1 = Some (ErrDomain 0 0)
+  /\ wf_designb W d2 = true /\ driver_table d2 = None.
+Proof. vm_compute. repeat split. Qed.
+Example C06_driver_check_iff_wf : forall W d, wf_designb W d = true -> wf_design W d.
+Proof. exact wf_designb_sound. Qed.
 
 (* PARTIAL (finite domain, by computation): on every design of the systematic family
      (fan tree)   {slice of every range in 3 (module, domain) positions, 5 part-selects of the whole signal,
